@@ -224,6 +224,25 @@ pub fn gen(tier: &str, seed: u64, out: &mut dyn FnMut(Value)) {
     // the segments a path spells are what a rule's field test looks up: scans against events served by derived
     // getters (maps with dotted and padded keys, nested structs, aliases)
     crate::props::engine::gen_derived(&mut rng, if tier == "thorough" { 5000 } else { 500 }, "lookups through derived getters", out);
+    // the left path of `a == @b` is the path as spelled, whatever its last letters and wherever the blanks are
+    {
+        use crate::dsl::{Form, Operand, SRule};
+        use crate::event::{event_to_json, DynEvent};
+        let fv = |s: &str| gene::FieldValue::String(s.into());
+        let events = vec![
+            DynEvent { source: "s".into(), id: 1, fields: vec![(vec!["axis".into()], fv("1")), (vec!["ax".into()], fv("2")), (vec!["is".into()], fv("1")), (vec!["this".into()], fv("2")), (vec!["th".into()], fv("1")), (vec!["r".into()], fv("1")), (vec!["d".into(), "is".into()], fv("1")), (vec!["d".into()], fv("2"))] },
+            DynEvent { source: "s".into(), id: 1, fields: vec![(vec!["axis".into()], fv("2")), (vec!["ax".into()], fv("1")), (vec!["is".into()], fv("2")), (vec!["this".into()], fv("1")), (vec!["th".into()], fv("2")), (vec!["r".into()], fv("1")), (vec!["d".into(), "is".into()], fv("2"))] },
+        ];
+        let evj: Vec<Value> = events.iter().map(event_to_json).collect();
+        for _ in 0..60 {
+            for a in [vec!["axis"], vec!["is"], vec!["this"], vec!["d", "is"]] {
+                for is in [false, true] {
+                    let r = SRule { name: "r".into(), ops: vec![("$a".into(), Operand::Indirect { a: a.iter().map(|s| s.to_string()).collect(), b: vec!["r".into()], is })], cond: Some(Form::V("$a".into())), ..Default::default() };
+                    out(json!({"op": "scenario", "rules": [r.to_json(&mut rng)], "events": evj, "tag": "indirect match on a field whose name ends in `is`", "nt": true}));
+                }
+            }
+        }
+    }
     // equality / hash on all pairs of a sample that contains near-duplicates
     let mut pool: Vec<String> = sample.iter().take(if tier == "thorough" { 600 } else { 120 }).cloned().collect();
     let extra: Vec<String> = pool.iter().take(20).map(|p| format!("{p}.x")).collect();
